@@ -41,20 +41,46 @@ def with_consts(text, **kv):
     return text
 
 
+def trie_module():
+    # PathDB.tla / HashDB.tla EXTEND the protocol definition of the trie family (one source of truth)
+    with open(vlib.VERIF + "/spec/trie/Trie.tla") as f:
+        return {"Trie.tla": f.read()}
+
+
+def tlc_check(ctx, module, cfg, files=None, **kw):
+    fs = trie_module()
+    fs.update(files or {})
+    return ctx.tlc_check("triedb", module, cfg, files=fs, **kw)
+
+
+def tlc_simulate(ctx, module, cfg, files=None, **kw):
+    fs = trie_module()
+    fs.update(files or {})
+    return ctx.tlc_simulate("triedb", module, cfg, files=fs, **kw)
+
+
+def absorb(ctx, res, test):
+    # a failure of the harness itself is broken machinery, never a verdict about the code
+    for dv in res.get("divergences") or []:
+        if str(dv.get("key", "")).startswith("triedb-harness:"):
+            raise vlib.Broken("engine triedb %s: %s %s" % (test, dv.get("key"), dv.get("what")))
+    ctx.absorb(res, "triedb", test)
+
+
 def run(ctx):
     binary = ctx.build_engine("triedb")
     if ctx.replay:
         with open(ctx.replay) as f:
             rp = json.load(f)
         res = ctx.run_engine(binary, rp["test"], rp["input"], timeout=1800)
-        ctx.absorb(res, "triedb", rp["test"])
+        absorb(ctx, res, rp["test"])
         return ctx.finish("model_checking", "replay of one recorded behaviour")
 
     thorough = not ctx.quick()
 
     # ---- 0. which pathdb is under test? (directed minimal histories on the real code, public API only)
     probe = ctx.run_engine(binary, "TestTriedbProbe", {}, timeout=900)
-    ctx.absorb(probe, "triedb", "TestTriedbProbe")
+    absorb(ctx, probe, "TestTriedbProbe")
     st = probe.get("stats", {})
     for k in ("disk_root_defect", "stale_journal_defect", "repeated_root_defect"):
         if k not in st:
@@ -64,34 +90,41 @@ def run(ctx):
     for k, v in fixes.items():
         ctx.coverage["code_has_" + k] = v
 
+    # development aid (mutation runs against a scratch worktree): skip the exhaustive model checking,
+    # which does not depend on the code under test; never honoured for the registered tree
+    import os
+    dev_fast = vlib.REPO != "/repo" and os.environ.get("VERIF_G07_FAST") == "1"
+
     # ---- 1. TLC on the specifications (repaired design: every property holds)
-    ctx.tlc_check("triedb", "PathDB.tla", "PathDB_thorough.cfg" if thorough else "PathDB_quick.cfg", timeout=3000)
-    ctx.tlc_check("triedb", "PathDB.tla", "PathDB_autocap.cfg", timeout=3000)
-    ctx.tlc_check("triedb", "HashDB.tla", "HashDB_thorough.cfg" if thorough else "HashDB_quick.cfg", timeout=3000)
+    if not dev_fast:
+        tlc_check(ctx, "PathDB.tla", "PathDB_thorough.cfg" if thorough else "PathDB_quick.cfg", timeout=3000)
+        if thorough:
+            tlc_check(ctx, "PathDB.tla", "PathDB_autocap.cfg", timeout=3000)
+        tlc_check(ctx, "HashDB.tla", "HashDB_thorough.cfg" if thorough else "HashDB_quick.cfg", timeout=3000)
     # the code as it is: each switch that is FALSE in the tree under test makes TLC refute a property
     # (a vacuity guard for the property AND the design-level statement of the deviation)
     base = read_cfg("PathDB_asis.cfg")
     for sw, inv in (("FixDropByChain", "CapKeepsBranch"), ("FixDiskRoot", "OpensAfterRestart"), ("FixJournalStale", "ReadsRight")):
-        if fixes[sw] and not thorough:
+        if (fixes[sw] and not thorough) or dev_fast:
             continue
-        r = ctx.tlc_check("triedb", "PathDB.tla", "asis.cfg", files={"asis.cfg": with_consts(base, **{sw: False})},
+        r = tlc_check(ctx, "PathDB.tla", "asis.cfg", files={"asis.cfg": with_consts(base, **{sw: False})},
                           expect_violation=True, timeout=1800, label="PathDB.tla/as-coded(%s=FALSE)" % sw)
         if r["violated"] is None:
             raise vlib.Broken("PathDB.tla with %s = FALSE violates nothing: the switch or the property is vacuous" % sw)
         ctx.coverage["asis_%s_violates" % sw] = r["violated"]
     if thorough:
         # vacuity: every action taken; witnesses reachable; seeded model defects refuted
-        r = ctx.tlc_check("triedb", "PathDB.tla", "PathDB_quick.cfg", coverage=True, timeout=3000, label="PathDB.tla/coverage")
+        r = tlc_check(ctx, "PathDB.tla", "PathDB_quick.cfg", coverage=True, timeout=3000, label="PathDB.tla/coverage")
         vlib.require_actions_covered(r)
         if not r.get("coverage"):
             raise vlib.Broken("no action coverage reported for PathDB.tla")
-        r = ctx.tlc_check("triedb", "HashDB.tla", "HashDB_quick.cfg", coverage=True, timeout=1200, label="HashDB.tla/coverage")
+        r = tlc_check(ctx, "HashDB.tla", "HashDB_quick.cfg", coverage=True, timeout=1200, label="HashDB.tla/coverage")
         vlib.require_actions_covered(r)
         quick = read_cfg("PathDB_quick.cfg")
         for wit, extra in (("WitnessRootReplaced", {}), ("WitnessBufferedJournal", {}),
                            ("WitnessSemiStale", {"FixDropByChain": False}), ("WitnessForkDropped", {"FixDropByChain": False})):
             text = re.sub(r"(?m)^INVARIANTS.*$", "INVARIANTS " + wit, with_consts(quick, **extra))
-            r = ctx.tlc_check("triedb", "PathDB.tla", "wit.cfg", files={"wit.cfg": text}, expect_violation=True, timeout=1200,
+            r = tlc_check(ctx, "PathDB.tla", "wit.cfg", files={"wit.cfg": text}, expect_violation=True, timeout=1200,
                               label="PathDB.tla/" + wit)
             if r["violated"] is None:
                 raise vlib.Broken("witness %s is unreachable: the properties it guards are vacuous" % wit)
@@ -99,19 +132,19 @@ def run(ctx):
             extra = {"Bug": '"%s"' % bug}
             if bug == "no-stale-check":
                 extra["FixDropByChain"] = False
-            r = ctx.tlc_check("triedb", "PathDB.tla", "bug.cfg", files={"bug.cfg": with_consts(quick, **extra)}, expect_violation=True,
+            r = tlc_check(ctx, "PathDB.tla", "bug.cfg", files={"bug.cfg": with_consts(quick, **extra)}, expect_violation=True,
                               timeout=1200, label="PathDB.tla seeded " + bug)
             if r["violated"] is None:
                 raise vlib.Broken("seeded model defect %s is not detected by PathDB.tla" % bug)
         hq = read_cfg("HashDB_quick.cfg")
         for bug in ("commit-skips-cached", "update-skips-cached"):
-            r = ctx.tlc_check("triedb", "HashDB.tla", "bug.cfg", files={"bug.cfg": with_consts(hq, Bug='"%s"' % bug)}, expect_violation=True,
+            r = tlc_check(ctx, "HashDB.tla", "bug.cfg", files={"bug.cfg": with_consts(hq, Bug='"%s"' % bug)}, expect_violation=True,
                               timeout=600, label="HashDB.tla seeded " + bug)
             if r["violated"] is None:
                 raise vlib.Broken("seeded model defect %s is not detected by HashDB.tla" % bug)
         for wit in ("WitnessLostOnCrash", "WitnessSharedCache"):
             text = re.sub(r"(?m)^INVARIANTS.*$", "INVARIANTS " + wit, hq)
-            r = ctx.tlc_check("triedb", "HashDB.tla", "wit.cfg", files={"wit.cfg": text}, expect_violation=True, timeout=600,
+            r = tlc_check(ctx, "HashDB.tla", "wit.cfg", files={"wit.cfg": text}, expect_violation=True, timeout=600,
                               label="HashDB.tla/" + wit)
             if r["violated"] is None:
                 raise vlib.Broken("witness %s is unreachable" % wit)
@@ -122,10 +155,10 @@ def run(ctx):
     per_run = 100 if thorough else 40
     behaviours = []
     for i in range(nruns):
-        behaviours += ctx.tlc_simulate("triedb", "PathDBMBT.tla", "sim.cfg", files={"sim.cfg": sim}, depth=31 * per_run,
+        behaviours += tlc_simulate(ctx, "PathDBMBT.tla", "sim.cfg", files={"sim.cfg": sim}, depth=31 * per_run,
                                        seed=ctx.seed * 1000 + i, timeout=900)
     res = ctx.run_engine(binary, "TestPathReplay", {"h": 3, "behaviours": behaviours}, timeout=3000)
-    ctx.absorb(res, "triedb", "TestPathReplay")
+    absorb(ctx, res, "TestPathReplay")
     ctx.coverage["behaviours_pathdb"] = len(behaviours)
     ctx.coverage["steps_replayed_pathdb"] = res.get("steps", 0)
 
@@ -133,19 +166,19 @@ def run(ctx):
     deep = with_consts(read_cfg("PathDB_deep_sim.cfg"), **fixes)
     dbeh = []
     for i in range(3 if thorough else 1):
-        dbeh += ctx.tlc_simulate("triedb", "PathDBMBT.tla", "deep.cfg", files={"deep.cfg": deep}, depth=171 * (3 if thorough else 2),
+        dbeh += tlc_simulate(ctx, "PathDBMBT.tla", "deep.cfg", files={"deep.cfg": deep}, depth=151 * (3 if thorough else 1) + 2,
                                  seed=ctx.seed * 1000 + 700 + i, timeout=1500)
     res = ctx.run_engine(binary, "TestPathReplay", {"h": 3, "autocap": True, "behaviours": dbeh}, timeout=3000)
-    ctx.absorb(res, "triedb", "TestPathReplay")
+    absorb(ctx, res, "TestPathReplay")
     ctx.coverage["behaviours_pathdb_autocap128"] = len(dbeh)
 
     # ---- 3. replay on the real hashdb
     hbeh = []
     for i in range(4 if thorough else 1):
-        hbeh += ctx.tlc_simulate("triedb", "HashDBMBT.tla", "HashDB_sim.cfg", depth=31 * (100 if thorough else 40),
+        hbeh += tlc_simulate(ctx, "HashDBMBT.tla", "HashDB_sim.cfg", depth=31 * (100 if thorough else 40),
                                  seed=ctx.seed * 1000 + 300 + i, timeout=900)
     res = ctx.run_engine(binary, "TestHashReplay", {"h": 3, "behaviours": hbeh}, timeout=3000)
-    ctx.absorb(res, "triedb", "TestHashReplay")
+    absorb(ctx, res, "TestHashReplay")
     ctx.coverage["behaviours_hashdb"] = len(hbeh)
     ctx.coverage["steps_replayed_hashdb"] = res.get("steps", 0)
 
